@@ -128,3 +128,42 @@ def emit(R, rules=RULES, funcs=FUNCS, contracts=None, loop_contracts=None, minim
     info["fidelity"] = X.fidelity("\n".join(fid_src), "\n".join(fid_emit),
                                   extra_vocab=["isSupported", "abs", "min", "max_ancestors", "level", "int"], slack=4)
     return "\n".join(out) + "\n", info
+
+
+def emit_ancestors(R, rule):
+    """The integer prefix of evalPWPower / diffPWPower for one rule: everything up to the first floating-point loop, returning the number of ancestor
+    nodes the Lagrange product is built from (-1 when the hard-coded cubic is used).  The floating-point remainder of both functions is dropped."""
+    text = X.strip_comments(X.read_source(HPP))
+    out, fns, drops = [], [], []
+    for f, cut_rx, caps in (("evalPWPower", r'for\s*\(\s*int\s+j\s*=\s*0\s*;\s*j\s*<\s*max_ancestors\b', [("level", "int", False), ("max_ancestors", "int", True)]),
+                            ("diffPWPower", r'int\s+most_turns\s*=|auto\s+update_and_get_next_node\s*=', [("level", "int", False)])):
+        (p,) = X.cut(HPP, r'template<erule\s+(\w+)>\s*(?:int|double)\s+%s\s*\([^)]*\)' % f, text)
+        tp = re.match(r'template<erule\s+(\w+)>\s*', p.header)
+        tparam = tp.group(1)
+        b = p.body
+        b = X.r1_qualifiers(R, b)
+        b = R.sub("R3-template-call", r'\b(\w+)\s*<\s*%s\s*>\s*\(' % tparam, r'\1_%s(' % rule, b)
+        b = R.sub("R3-enum-const", r'\berule::(\w+)', r'erule_\1', b)
+        b = R.sub("R3-template-param", r'\b%s\b' % tparam, 'erule_%s' % rule, b)
+        b = X.r2_casts(R, b)
+        b = X.r2_std_math(R, b)
+        b = R.sub("R2-and", r'\band\b', '&&', b)
+        name = "%s_anc_%s" % (f, rule)
+        # the lambda of evalPWPower assigns the captured variable it initialises (`int max_ancestors = [&]{ return max_ancestors = ...; }()`): captured by reference
+        if f == "evalPWPower":
+            b = R.sub("R7-decl-split", r'int\s+max_ancestors\s*=\s*(?=\[&\])', 'int max_ancestors; max_ancestors = ', b)
+        hoisted, b = _hoist_lambda(R, name, "", b, caps)
+        m = re.search(cut_rx, b)
+        if not m:
+            raise X.ExtractionBreak("%s: the start of the floating-point part was not found" % f)
+        pre = b[:m.start()]
+        if "max_ancestors" not in pre:
+            raise X.ExtractionBreak("%s: max_ancestors is not computed before the floating-point part" % f)
+        pre = R.sub("R12-cubic-marker", r'return\s+(?:eval|diff)PWCubic_\w+\(\s*point\s*,\s*x\s*\)\s*;', 'return -1;', pre)
+        body = pre + "return max_ancestors;\n}"
+        X.check_leftover(hoisted + body, name)
+        out.append('#line %d "%s"\n%sstatic int %s(int max_order, int point, double x)%s\n' % (p.line, X.REPO + "/" + p.rel, hoisted, name, body))
+        fns.append({"name": "%s<%s> (integer prefix)" % (f, rule), "file": p.rel, "line": p.line, "loops": 0})
+        drops.append("%s: everything from the first floating-point loop on (%d of %d characters kept)" % (f, m.start(), len(b)))
+    R.require({"R7-hoist": 2, "R12-cubic-marker": 2})
+    return "\n".join(out), {"functions": fns, "drops": drops, "rules_fired": {k: v for k, v in R.counts.items() if v}}
